@@ -861,7 +861,7 @@ class Gen:
         for n in range(nrout):
             self.feats = set()
             self.modelled = True
-            lines, ast = self.block({}, r.randint(2, 5), "    ", 0)
+            lines, ast = self.block({}, r.randint(2, 4), "    ", 0)
             if r.random() < 0.45:
                 tl, ta = self.truth_block("    ")
                 lines, ast = tl + lines, ["seqs", ta] + ast[1:]
